@@ -2753,6 +2753,15 @@ EGLPNUM_TYPENAME_QSLIB_INTERFACE int EGLPNUM_TYPENAME_QSget_infeas_array (
 		ILL_ERROR (rval, "QS_get_infeas_array called with NULL pi vector\n");
 	}
 
+	/* the simplex state holds a certificate only when the last solve of this
+	 * problem ended infeasible and the problem has not been changed since */
+	if (p->qstatus != QS_LP_INFEASIBLE)
+	{
+		QSlog("no infeasibility certificate available (status %d)", p->qstatus);
+		rval = 1;
+		goto CLEANUP;
+	}
+
 	rval = EGLPNUM_TYPENAME_ILLsimplex_infcertificate (p->lp, pi);
 	CHECKRVALG (rval, CLEANUP);
 
